@@ -506,6 +506,13 @@ func redactPipelineStage(stage interface{}, redactFieldNames bool, keyPath []str
 				newMap.Set(redactedKey, v)
 				continue
 			}
+			if _, ok := v.(string); ok && !inSearchStage && (k == "$out" || k == "$merge" || k == "$unionWith") {
+				if _, isStageWithNamespace := opMeta.(*orderedmap.OrderedMap[string, any]); isStageWithNamespace {
+					// short form: {$out: "coll"}, {$merge: "coll"}, {$unionWith: "coll"} name a collection
+					newMap.Set(redactedKey, redactNamespaceArgument(v))
+					continue
+				}
+			}
 			switch vTyped := v.(type) {
 			case *orderedmap.OrderedMap[string, any]:
 				newMap.Set(redactedKey, redactPipelineStage(vTyped, redactFieldNames, newKeyPath, inSearchStage))
